@@ -451,6 +451,35 @@ pub fn run(tier: Tier) -> BResult {
         None => violations.push(BViolation { message: format!("C05: restart probe child {}", r.fate.describe()), case: json!({"grid": "restart"}) }),
     }
     samples.push(json!({"grid_all_signals": g.lines.iter().take(3).collect::<Vec<_>>(), "cycle": c.find("cycle "), "restart": r.find("restart ")}));
+    // schedules (engine A): concurrent mutators must not disturb each other's actions / signals
+    let mut a_caps: Vec<serde_json::Value> = Vec::new();
+    let (mut a_states, mut a_trans, mut a_execs) = (0u64, 0u64, 0u64);
+    for it in crate::props::reg::scenarios("C05", tier) {
+        let name = it.run.name();
+        let cfg = crate::explore::Config { property: "C05".into(), bound: it.bound, max_wall: Duration::from_secs(if tier == Tier::Quick { 25 } else { 300 }), workers: crate::props::workers_for(it.run.nthreads()), hang_secs: 30 };
+        match crate::explore::explore(&*it.run, &cfg) {
+            Ok(sum) => {
+                eprintln!("[C05] schedules {:<48} bound={:?} execs={} states={} steps={} distinct={}{}", name, cfg.bound, sum.stats.executions, sum.stats.states, sum.stats.transitions, sum.stats.digests.len(), if sum.stats.capped { " CAPPED" } else { "" });
+                a_states += sum.stats.states;
+                a_trans += sum.stats.transitions;
+                a_execs += sum.stats.executions;
+                if sum.stats.capped {
+                    a_caps.push(json!({"scenario": name, "cap": "wall-clock"}));
+                }
+                for v in sum.violations {
+                    let class = crate::explore::class_of(&v.message);
+                    if class == "C05" || class == "engine" {
+                        violations.push(BViolation { message: format!("{} [schedule replay: {}]", v.message, v.replay), case: json!({"scenario": name, "engine": "sigsched", "choices": v.choices}) });
+                    }
+                }
+            }
+            Err(er) => violations.push(BViolation { message: format!("engine: {}", er), case: json!({"scenario": name}) }),
+        }
+    }
+    caps.extend(a_caps);
+    let states = states + a_states;
+    let ops = ops + a_trans;
+    let hists = hists + a_execs;
     BResult {
         states: states + grid_cells + 2,
         transitions: ops + 10_000,
@@ -461,7 +490,7 @@ pub fn run(tier: Tier) -> BResult {
         violations,
         exhaustive: caps.is_empty(),
         caps,
-        rule: format!("explicit-state BFS to depth {} over {{register, register_sigaction on 3 signals, unregister(every id ever returned: live and stale), unregister_signal, deliver}}; states = reference-model states (per issued id: signal, live, kind) deduplicated per chunk (one chunk per 2-operation prefix); every transition is executed as a complete history on the real registry from a reset and compared step by step with the model, followed by probe deliveries of all signals and a disposition check; plus grids: all signal numbers 1..64, a 10000-step register/unregister cycle, one system-call-restart probe", depth),
+        rule: format!("schedules: two mutators (on two signals / on one) + deliveries, every choice vector within the deviation bound on the real registry, final probe deliveries compared with the registered set, ids distinct; histories: explicit-state BFS to depth {} over {{register, register_sigaction on 3 signals, unregister(every id ever returned: live and stale), unregister_signal, deliver}}; states = reference-model states (per issued id: signal, live, kind) deduplicated per chunk (one chunk per 2-operation prefix); every transition is executed as a complete history on the real registry from a reset and compared step by step with the model, followed by probe deliveries of all signals and a disposition check; plus grids: all signal numbers 1..64, a 10000-step register/unregister cycle, one system-call-restart probe", depth),
         assumptions: vec!["SigId cannot be forged: foreign ids are ids of other signals and stale ids".into(), "registry reset between histories through the cfg(sighook_verif) hook".into()],
     }
 }
